@@ -372,7 +372,7 @@ class _State:
             self.m.register_function(name, self._tool_fn(name), required_capabilities=self._caps(caps))
             return "ok", None
         if op == "met":
-            forced, src = t[1], unhexs(t[5])
+            forced, src = t[1], unhexs(t[4])
             pw = None if forced == "auto" else getattr(M.MetabolicPathway, PATHS[forced])
             del self.world.log[:]
             ex = {}
@@ -389,6 +389,7 @@ class _State:
                 else:
                     head = "fail " + pn
                 ex["success"] = bool(r.success)
+                ex["error"] = (r.error or "")[:160]
             ros = int(round(self.m._ros_accumulated * 10))
             ex["prof"] = prof.report()
             return f"{head} ros={ros} {{{'|'.join(self.world.log)}}}", ex
@@ -518,6 +519,8 @@ class _Prof:
                 pass
         if event in ("sys._getframe", "object.__getattr__", "builtins.id", "sys.setprofile"):
             return
+        if event == "import":
+            event = "import:" + str(args[0])
         self.audit.append(event)
 
     def report(self):
@@ -546,6 +549,7 @@ def worker_main():
         return
     from operon_ai.organelles import mitochondria as M
     import json as _j  # noqa  (warm: the transform pathway imports it lazily)
+    import unicodedata as _u  # noqa  (warm: CPython's parser imports it to normalise non-ASCII identifiers)
     prof = _Prof(False, M.__file__)
     sys.addaudithook(prof.on_audit)
     real_out.write(json.dumps({"ready": True}) + "\n")
@@ -648,6 +652,286 @@ def bounded_probe(repo: str, src: str, timeout_seconds: float, wall: float, mem_
         if l.startswith("returned:"):
             return l
     return "crashed"
+
+
+
+# --------------------------------------------------------------------------------------------------------------
+# generators
+# --------------------------------------------------------------------------------------------------------------
+TN = ["t0", "t1", "t2", "t3", "t4", "f0", "f1"]
+SUP_BIN = ["+", "-", "*", "/", "//", "%", "**"]
+UNSUP_BIN = ["<<", ">>", "|", "^", "&", "@"]
+SUP_CMP = ["<", "<=", ">", ">=", "==", "!="]
+UNSUP_CMP = ["is", "is not", "in", "not in"]
+KWN = ["k", "base", "ndigits", "key"]
+# one source template per ast.expr class that the walker must refuse ({} = a sub-expression)
+OTHER_TEMPLATES = {
+    "Attribute": "({}).real", "Subscript": "({})[{}]", "Lambda": "(lambda: {})", "ListComp": "[{} for _ in {}]",
+    "SetComp": "{{{} for _ in {}}}", "DictComp": "{{{}: {} for _ in {}}}", "GeneratorExp": "({} for _ in {})",
+    "Dict": "{{{}: {}}}", "Set": "{{{}}}", "JoinedStr": "f'{{{}}}'", "NamedExpr": "(x := {})",
+    "Await": "(await {})", "Yield": "(yield {})", "YieldFrom": "(yield from {})",
+    "Starred": "[*{}]", "Slice": "({})[{}:{}]", "FormattedValue": "f'a{{{}!r}}'",
+}
+
+
+def gen_tracer(rng, d, want, clean, logic=False):
+    """source of a tracer-world expression.  want: 'T' surely a tracer when it evaluates, 'truth' tracer or
+    bool/list/tuple (safe to truth-test), 'any' may be an opaque constant.  clean: only constructs that both the
+    reference `eval` over tracers and the log can express (no is/in, no refused node classes)."""
+    r = rng.random
+    G = lambda w, dd=None: gen_tracer(rng, d - 1 if dd is None else dd, w, clean, logic)
+    if d <= 0 or r() < 0.18:
+        if want == "T":
+            return rng.choice(TN)
+        pool = TN + TN + ["True", "False"] + (["true", "false"] if logic else [])
+        if want == "any":
+            pool = pool + ["7", "None", "2.5", "0", "()"]     # no strings: str % x formats instead of deferring
+        return rng.choice(pool)
+    k = r()
+    if k < 0.22:
+        op = rng.choice(SUP_BIN * 4 + UNSUP_BIN)
+        a, b = G("T"), G("any")
+        if r() < 0.5:
+            a, b = b, a
+        return f"({a} {op} {b})"
+    if k < 0.30:
+        return f"({rng.choice(['-', '+', '-', '~'])}{G('T')})"
+    if k < 0.42:
+        n = rng.choice([2, 2, 3])
+        ops = [rng.choice(["and", "or"])] * (n - 1)
+        parts = [G("T" if want == "T" else "truth") for _ in range(n - 1)] + [G(want)]
+        s = parts[0]
+        for o, x in zip(ops, parts[1:]):
+            s += f" {o} {x}"
+        return f"({s})"
+    if k < 0.50:
+        return f"({G(want)} if {G('truth')} else {G(want)})"
+    if k < 0.64:
+        callee = rng.choice(TN + TN + ["zz"])
+        args = [G("any") for _ in range(rng.choice([0, 1, 1, 2]))]
+        kws = [f"{n}={G('any')}" for n in rng.sample(KWN, rng.choice([0, 0, 1, 2]))]
+        if not clean and r() < 0.08:
+            kws.append(f"**{G('T')}")
+        if not clean and r() < 0.05:
+            args.append(f"*{G('T')}")
+        return f"{callee}({', '.join(args + kws)})"
+    if k < 0.68 and not clean:
+        t = rng.choice(sorted(OTHER_TEMPLATES))
+        tpl = OTHER_TEMPLATES[t]
+        return tpl.format(*[G("T") for _ in range(tpl.count("{}"))])
+    if k < 0.71:
+        return "zz"
+    if want == "T":
+        return f"({G('T')} {rng.choice(SUP_BIN)} {G('T')})"
+    if k < 0.80:
+        return f"(not {G('truth')})"
+    if k < 0.92:
+        n = rng.choice([1, 1, 2, 3])
+        cmps = SUP_CMP * 3 + ([] if clean else UNSUP_CMP)
+        s = G("T")
+        for i in range(n):
+            s += f" {rng.choice(cmps)} {G('T' if i < n - 1 else 'any')}"
+        return f"({s})"
+    els = [G("any") for _ in range(rng.choice([0, 1, 2, 3]))]
+    if r() < 0.5:
+        return "[" + ", ".join(els) + "]"
+    return "(" + ", ".join(els) + ("," if len(els) == 1 else "") + ")"
+
+
+def gen_tool_call(rng, d, tool_names):
+    tn = rng.choice(tool_names + ["nosuch"])
+    args = [gen_tracer(rng, d, "any", False) for _ in range(rng.choice([0, 1, 2]))]
+    kws = [f"{n}={gen_tracer(rng, d, 'any', False)}" for n in rng.sample(KWN, rng.choice([0, 1]))]
+    if rng.random() < 0.1:
+        kws.append(f"**{gen_tracer(rng, 1, 'T', False)}")
+    pre = rng.choice(["", "", "", " "])
+    return f"{pre}{tn}({', '.join(args + kws)})"
+
+
+CAPS = ["read_fs", "write_fs", "net", "exec_code", "money", "email_send"]
+TOOLNAMES = ["tool1", "Calc", "k", "f0", "get_x"]
+
+
+def header(rng, facts, names=None, tools=None, **cfg):
+    names = TN if names is None else names
+    seed = rng.randrange(1, 10 ** 6)
+    lines = [tables_line(facts, names), cfg_line(facts, seed, **cfg)]
+    for (n, caps) in tools or []:
+        lines.append(f"tool {hexs(n)} {hexs(n.lower())} {','.join(caps) or '-'}")
+    return lines
+
+
+def random_cfg(rng):
+    allowed = None if rng.random() < 0.6 else rng.sample(CAPS, rng.choice([0, 1, 2, 4]))
+    return dict(silent=rng.random() < 0.7, ros=rng.choice([(1, 1), (1, 1), (3, 10), (1, 2), (1, 5), (0, 1)]),
+                tz=rng.random() < 0.04, allowed=allowed)
+
+
+def random_tools(rng):
+    out = []
+    for n in rng.sample(TOOLNAMES, rng.choice([0, 1, 1, 2, 3])):
+        out.append((n, rng.sample(CAPS, rng.choice([0, 0, 1, 2]))))
+    return out
+
+
+# concrete-value grammar (C02 oracle; C01 confinement profile)
+def concrete_lit(rng):
+    return rng.choice(["0", "1", "2", "3", "7", "-1", "2.5", "0.0", "True", "False", "'a'", "'ab'", "''", "'true'",
+                       "'False x'", "10", "None", "1e308", "0.1", "'1'", "'11'", "-0.0", "5", "[1, 2]", "(3,)"])
+
+
+def gen_concrete(rng, d, fn_names, const_names):
+    G = lambda: gen_concrete(rng, d - 1, fn_names, const_names)
+    if d <= 0 or rng.random() < 0.25:
+        return rng.choice([concrete_lit(rng), concrete_lit(rng), rng.choice(const_names or ["pi"])])
+    k = rng.random()
+    if k < 0.25:
+        return f"({G()} {rng.choice(SUP_BIN)} {G()})"
+    if k < 0.33:
+        return f"({rng.choice(['-', '+', 'not '])}{G()})"
+    if k < 0.48:
+        s = G()
+        for _ in range(rng.randint(1, 3)):
+            s += f" {rng.choice(SUP_CMP)} {G()}"
+        return f"({s})"
+    if k < 0.62:
+        return "(" + f" {rng.choice(['and', 'or'])} ".join(G() for _ in range(rng.randint(2, 3))) + ")"
+    if k < 0.69:
+        return f"({G()} if {G()} else {G()})"
+    if k < 0.76:
+        els = [G() for _ in range(rng.randint(0, 3))]
+        return ("[" + ", ".join(els) + "]") if rng.random() < 0.5 else ("(" + ", ".join(els) + ("," if len(els) == 1 else "") + ")")
+    f = rng.choice(fn_names + ["abs", "round", "min", "max", "sum", "len", "int", "float", "bool", "pow"])
+    args = [G() for _ in range(rng.randint(0, 2))]
+    kw = rng.choice([[], [], [], ["ndigits=1"], ["base=2"], ["start=1"], ["key=abs"], ["default=0"], ["ndigits=-1"]])
+    return f"{f}({', '.join(args + kw)})"
+
+
+def cheap(src: str) -> bool:
+    """static guard: evaluation of the concrete expression is cheap (no big int power, factorial, repetition)."""
+    try:
+        tree = ast.parse(src, mode="eval")
+    except Exception:  # noqa
+        return True
+
+    def bound(n):      # upper bound on |int value| / length, None = unknown-but-small is not guaranteed
+        if isinstance(n, ast.Constant):
+            v = n.value
+            if isinstance(v, bool):
+                return 1
+            if isinstance(v, int):
+                return abs(v)
+            if isinstance(v, float):
+                return 10 ** 6
+            if isinstance(v, str):
+                return len(v) + 20
+            return 10
+        if isinstance(n, ast.UnaryOp):
+            return bound(n.operand)
+        if isinstance(n, (ast.List, ast.Tuple)):
+            return max([len(n.elts)] + [bound(e) for e in n.elts] + [1])
+        if isinstance(n, ast.BinOp):
+            a, b = bound(n.left), bound(n.right)
+            if isinstance(n.op, ast.Pow):
+                if b > 8 or a > 1000:
+                    raise OverflowError
+                return max(a, 2) ** b
+            if isinstance(n.op, ast.Mult):
+                if a * b > 10 ** 7:
+                    raise OverflowError
+                return max(a * b, a, b)
+            if isinstance(n.op, ast.Add):
+                return a + b
+            return max(a, b, 1)
+        if isinstance(n, ast.Call):
+            fn = n.func.id if isinstance(n.func, ast.Name) else ""
+            bs = [bound(a) for a in n.args] + [bound(k.value) for k in n.keywords]
+            m = max(bs + [1])
+            if fn == "factorial":
+                if m > 25:
+                    raise OverflowError
+                return 10 ** 26
+            if fn == "pow":
+                return 10 ** 6
+            return max(m * 4, 10 ** 3) if fn in ("sum",) else max(m, 10 ** 3)
+        if isinstance(n, ast.BoolOp):
+            return max(bound(v) for v in n.values)
+        if isinstance(n, ast.IfExp):
+            return max(bound(n.test), bound(n.body), bound(n.orelse))
+        if isinstance(n, ast.Compare):
+            for c in [n.left] + n.comparators:
+                bound(c)
+            return 1
+        if isinstance(n, ast.Name):
+            return 10 ** 6
+        return 10 ** 6
+    try:
+        bound(tree.body)
+        return True
+    except OverflowError:
+        return False
+    except RecursionError:
+        return False
+
+
+# raw strings: (source, safe for full `met` correspondence?)  — the others only go through `cmet`
+def raw_strings(max_len: int):
+    pad = lambda s, n: s + " " * (n - len(s))
+    out = [
+        ("", True), (" ", True), ("t0\x00", True), ("\x00", True),
+        (pad("t0 + t1", max_len - 1), True), (pad("t0 + t1", max_len), True), (pad("t0 + t1", max_len + 1), True),
+        (pad("t0 < t1", max_len + 1), True), (pad("tool1(t0)", max_len), True), (pad("[t0]", max_len + 1), True),
+        ("t0 " + "+ t1 " * ((max_len - 3) // 5), False), ("x" * (2 * max_len), True),
+        ("(" * 50 + "t0" + ")" * 50, True), ("(" * 150 + "t0" + ")" * 150, True), ("(" * 200 + "t0" + ")" * 200, True),
+        ("(" * 201 + "t0" + ")" * 201, True), ("(" * 1000 + "t0" + ")" * 1000, True),
+        ("-" * 100 + "t0", True), ("-" * 9000 + "t0", True), ("not " * 60 + "t0", True),
+        ("-" * 600 + "t0", False), ("-" * 1500 + "t0", False), ("t0" + " + t1" * 1200, False),
+        ("[" * 300 + "]" * 300, False), ("[" * 3000 + "]" * 3000, False), ("{" * 400, False),
+        ("'\ud800'", True), ("t0 #\udc00", True), ("\ud800", True), ("t0 + t1 " + " " * 60 + "#\ud800", True),
+        ("tool1(t0)", True), ("TOOL1(t0)", True), (" tool1(t0) ", True), ("tool1 (t0)", True), ("tool1(", True),
+        ("tool1(t0) + t1", True), ("tool1(t0)(t1)", True), ("tool1", True), ("tool1(t0, k=t1, **t2)", True),
+        ("Tool1(t0)", True), ("K(t0)", True), ("k(t0)", True), ("K(t0)", True), ("calc(t0)", True),
+        ("Calc(t0)", True), ("t0.tool1(t1)", True), ("(tool1)(t0)", True),
+        ("[t0, t1]", True), ("[1, 2]", True), ("{\"a\": 1}", True), ("[True]", True), ("[1,2", True), (" [1]", True),
+        ("{t0}", True), ("[]", True), ("{}", True), ("[t0 for _ in t1]", True), ("(1, 2)", False),
+        ("[1e999]", True), ("[NaN]", True), ("{'a': (1, [2])}", True),
+        ("TRUE", True), ("tRuE and t0", True), ("t0 AND t1", True), ("untrue", True), ("t0 or t1", True),
+        ("t0  or  t1", True), ("t0 or\tt1", True), ("not t0", True), (" not t0", True), ("(not t0)", True),
+        ("t0 if not t1 else t2", True), ("t0<t1", True), ("t0 != t1", True), ("t0 >> t1", True),
+        ("f0(lambda: t0)", True), ("f0(k=t0 > t1)", True), ("t0 -> t1", True),
+        ("'<'", False), ("'true'", False), ("1 + 2", False), ("'a' * 3", False), ("pi", False), ("2 ** 10", False),
+        ("__import__('os').system('true')", False), ("().__class__.__bases__", False),
+        ("(lambda: 1)()", False), ("[x for x in (1,2)]", False), ("f'{1}'", False), ("open('/etc/passwd')", False),
+        ("abs.__self__", False), ("max([1,2], key=abs)", False), ("eval('1')", False), ("getattr(1, 'real')", False),
+        ("exec('x=1')", False), ("compile('1','','eval')", False), ("globals()", False), ("1 if 1 else 2", False),
+        ("round(2.567, ndigits=1)", False), ("int('11', base=2)", False), ("(0 or 5) + 1", False), ("pi()", False),
+        ("'true' == '1'", False), ("len('False') == 5", False), ("0 and 1/0", False), ("1 or 1/0", False),
+    ]
+    return out
+
+
+# bounded-resource probes: int-literal arithmetic -> IExpr tokens for the driver's size semantics
+def iexpr_tokens(src: str):
+    def go(n, out):
+        if isinstance(n, ast.Constant) and isinstance(n.value, int) and not isinstance(n.value, bool) and n.value >= 0:
+            out.append(f"I{n.value}")
+        elif isinstance(n, ast.BinOp) and isinstance(n.op, (ast.Add, ast.Mult, ast.Pow)):
+            out.append({"Add": "A", "Mult": "M", "Pow": "P"}[type(n.op).__name__])
+            go(n.left, out)
+            go(n.right, out)
+        else:
+            raise ValueError("not an int-literal expression")
+    out: list[str] = []
+    go(ast.parse(src, mode="eval").body, out)
+    return out
+
+
+def bound_line(src: str) -> str:
+    return " ".join(["bound", hexs(src)] + iexpr_tokens(src))
+
+
+def has_pow(line: str) -> bool:
+    return "P" in line.split(" ")[2:]
 
 
 if __name__ == "__main__" and len(sys.argv) > 1 and sys.argv[1] == "--worker":
